@@ -95,3 +95,37 @@ Definition sval_of_seedarg (a : seedarg) : sval :=
 Definition origin_of_seedarg (a : seedarg) : Z * list nat * nat :=
   match a with SGen r p o => (r, p, o) | _ => (0%Z, [], 0) end.
 Definition sval_of_seed_data (sd : option Z) : sval := match sd with Some n => VInt n | None => VNone end.
+
+(* ------------------------------------------------------------------ depolarising-noise constructors (numbers in an ordered field)
+   Functions translated in this style: objects/gate.get_depolarizing_channel, DepolarizedQOperationGenerationSetting.{__init__,
+   generate_state, generate_povm, generate_gate, generate_mprocess}, qoperation_typical.generate_qoperation_depolarized (per mode).
+   Objects are their numbers: a state = coefficient vector, a POVM = list of vectors, a gate = HS matrix, an MProcess = list of HS
+   matrices; [n] = c_sys.dim ** 2.  compose_qoperations(X, Y) is dispatched on the STATIC types of its operands; its meaning on
+   coefficients is the composition rule of quara.objects.operators (property C06): gate after state = hs @ vec, POVM after gate =
+   vec @ hs for every element, gate after gate = hs1 @ hs2, gate after MProcess = hs1 @ hs_x for every outcome. *)
+From QV.Core Require Import OF Sums Mat.
+From QV.Model Require Import QObj.
+Section DepolSem.
+Context (F : OF).
+(* a <= b <= c *)
+Definition py_chain_le (a b c : F) : bool := kleb F a b && kleb F b c.
+(* np.array([x] + [y] * (n - 1)) *)
+Definition vec_cons1 (x y : F) : rvec F := fun a => if Nat.eqb a 0 then x else y.
+(* np.diag(v) *)
+Definition np_diag (v : rvec F) : rmat F := fun a b => if Nat.eqb a b then v a else c0 F.
+Definition compose_gate_state (n : nat) (H : rmat F) (v : rvec F) : rvec F := mv n H v.
+Definition compose_povm_gate (n : nat) (vs : list (rvec F)) (H : rmat F) : list (rvec F) :=
+  map (fun v => fun b => sumn n (fun a => cmul F (v a) (H a b))) vs.
+Definition compose_gate_gate (n : nat) (H G : rmat F) : rmat F := mmul n H G.
+Definition compose_gate_mprocess (n : nat) (H : rmat F) (Gs : list (rmat F)) : list (rmat F) := map (mmul n H) Gs.
+End DepolSem.
+
+(* ------------------------------------------------------------------ spawn structure of the flow entry point
+   Function translated in this style: simulation_flow.execute_simulation_test_setting_unit.
+   SeedSequence(seed).spawn(n) = the n children with spawn keys [0] .. [n-1]; Generator(MT19937(child)) = the stream with that key at
+   position 0.  joblib.Parallel(...)([delayed(task)(.., i, .., g, ..) for i, g in enumerate(gens)]) = the list of the task results in
+   SUBMISSION order (theorem C15_par_exec_schedule_irrelevant: for every schedule that runs each task), the tasks being functions of
+   their arguments; list(itertools.chain.from_iterable(rs)) = concat rs. *)
+Definition py_spawn_streams (seed : Z) (n : nat) : list key := spawn seed [] n.
+Definition py_parallel_enumerate {A R : Type} (task : nat -> A -> R) (l : list A) : list R :=
+  map (fun ia => task (fst ia) (snd ia)) (combine (seq 0 (length l)) l).
